@@ -23,6 +23,7 @@ import (
 	"context"
 	"errors"
 	"fmt"
+	"math/rand"
 	"sort"
 	"strings"
 	"sync"
@@ -78,13 +79,73 @@ func concScenario(out *Out, sc int) {
 	add := func(rec concRec) { mu.Lock(); recs = append(recs, rec); mu.Unlock() }
 	tb := []byte(tname)
 
+	// in half of the scenarios one node is down when the clients start and comes back while they are at
+	// work: it catches up - by log replay or by a snapshot of the other nodes (SnapshotEntries = 15) - under
+	// concurrent reads and writes, and serves clients as soon as it is ready (C08: reads overlapping an install)
+	var upMu sync.Mutex
+	up := append([]*cnode{}, nodes...)
+	pick := func(cr *rand.Rand) *cnode {
+		upMu.Lock()
+		defer upMu.Unlock()
+		return up[cr.Intn(len(up))]
+	}
+	var rejoin sync.WaitGroup
+	if r.Intn(2) == 0 {
+		victim := nodes[r.Intn(3)]
+		up = nil
+		for _, n := range nodes {
+			if n != victim {
+				up = append(up, n)
+			}
+		}
+		victim.stop()
+		// a leader among the remaining two before anybody writes
+		for i := 0; i < 300; i++ {
+			ok := true
+			for _, n := range up {
+				tbl, err := n.e.GetTable(tname)
+				if err != nil {
+					ok = false
+					break
+				}
+				lid, _, valid, err := n.e.NodeHost.GetLeaderID(tbl.ClusterID)
+				if err != nil || !valid || lid == victim.id {
+					ok = false
+					break
+				}
+			}
+			if ok {
+				break
+			}
+			time.Sleep(20 * time.Millisecond)
+		}
+		out.Count("node_down_at_start")
+		rejoin.Add(1)
+		pause := time.Duration(300+r.Intn(700)) * time.Millisecond
+		go func() {
+			defer rejoin.Done()
+			time.Sleep(pause)
+			if err := victim.start(); err != nil || !victim.ready(60*time.Second) {
+				out.Count("rejoin_failed")
+				return
+			}
+			func() {
+				defer func() { _ = recover() }()
+				waitTable(victim.e, tname)
+				upMu.Lock()
+				up = append(up, victim)
+				upMu.Unlock()
+				out.Count("node_rejoined_during_the_run")
+			}()
+		}()
+	}
 	client := func(ci int) {
 		defer wg.Done()
 		cr := newRand(int64(99000 + sc*100 + ci))
 		g := &fsmGen{r: cr, keys: shared.keys}
 		m := len(g.keys)
 		for op := 0; op < perClient && !abandoned.Load(); op++ {
-			n := nodes[cr.Intn(3)]
+			n := pick(cr)
 			ctx, cancel := context.WithTimeout(context.Background(), 10*time.Second)
 			if cr.Intn(100) < 45 {
 				// a write
@@ -221,7 +282,7 @@ func concScenario(out *Out, sc int) {
 		defer wg.Done()
 		cr := newRand(int64(99500 + sc*100 + ci))
 		for op := 0; op < perClient*3 && !abandoned.Load(); op++ {
-			n := nodes[cr.Intn(3)]
+			n := pick(cr)
 			k := hot[cr.Intn(len(hot))]
 			v := []byte(fmt.Sprintf("h%d-%d", ci, op))
 			ctx, cancel := context.WithTimeout(context.Background(), 10*time.Second)
@@ -245,7 +306,7 @@ func concScenario(out *Out, sc int) {
 		defer wg.Done()
 		cr := newRand(int64(99700 + sc*100 + ci))
 		for op := 0; op < perClient/2 && !abandoned.Load(); op++ {
-			n := nodes[cr.Intn(3)]
+			n := pick(cr)
 			t := &regattapb.Txn{}
 			for i := 0; i < 300+cr.Intn(300); i++ {
 				t.Success = append(t.Success, &regattapb.RequestOp{Request: &regattapb.RequestOp_RequestRange{RequestRange: &regattapb.RequestOp_Range{Key: hot[i%len(hot)]}}})
@@ -271,6 +332,7 @@ func concScenario(out *Out, sc int) {
 		go wideReader(ci)
 	}
 	wg.Wait()
+	rejoin.Wait()
 	if abandoned.Load() {
 		out.Count("abandoned")
 		out.Count("abandon_" + abandonWhy)
